@@ -288,6 +288,12 @@ func TOMLText(v any) (string, bool) {
 
 func tomlValue(v any) (string, bool) {
 	switch x := v.(type) {
+	case wire.Opaque:
+		// a native TOML date / time, written bare
+		if strings.HasPrefix(x.Type, "toml.Local") {
+			return x.Repr, true
+		}
+		return "", false
 	case bool:
 		if x {
 			return "true", true
@@ -320,6 +326,19 @@ func tomlValue(v any) (string, bool) {
 		return "[" + strings.Join(parts, ", ") + "]", true
 	}
 	return numStr(v)
+}
+
+// EscapeDollars respells every "$" of a text produced by StreamText as an
+// escape sequence of the format (all strings are double-quoted there, so a
+// "$" only ever occurs inside one): the decoded documents are the same, the
+// bytes hold no "$" at all.
+func EscapeDollars(ext, text string) string {
+	switch ext {
+	case "yaml", "yml":
+		return strings.ReplaceAll(text, "$", `\x24`)
+	default:
+		return strings.ReplaceAll(text, "$", `\u0024`)
+	}
 }
 
 // StreamText renders a stream of documents in the format of ext
